@@ -94,6 +94,8 @@ SrvData(b, i, lim, t2, base) ==
   ELSE IF t2 = 40 /\ n = 8 THEN base @@ [kind |-> "FontMap"]
   ELSE IF t2 = 47 /\ n = 4 THEN base @@ [kind |-> "ErrInfo", code |-> B4(b, i)]
   ELSE IF t2 \in {31, 20, 40, 47} THEN Bad("server data pdu: known pduType2 with a wrong body size")
+  ELSE IF t2 = 2 /\ n >= 4 /\ U16LE(b, i) = 1 /\ Rects(b, i + 4, lim, U16LE(b, i + 2), <<>>).ok
+       THEN base @@ [kind |-> "SlowBitmap", rects |-> Rects(b, i + 4, lim, U16LE(b, i + 2), <<>>).rects]   \* slow-path bitmap update (2.2.9.1.1.3.1.2)
   ELSE base @@ [kind |-> "UnknownData", t2 |-> t2]
 
 SrvShareControl(b, i, lim) ==
